@@ -180,6 +180,10 @@ def cmd_check(pid, tier, seed):
         unreach = [c for c in nchecks if c["verdict"] == "unreachable" and c["name"] in set(h.get("obligations", []))]
         if unreach and r["status"] == "ok":
             undecided.append("harness %s: named obligation(s) unreachable (vacuous): %s" % (name, "; ".join(c["name"] for c in unreach)))
+        wantc = set(h.get("covers", []))
+        havec = {c["name"] for c in cov}
+        if wantc - havec and r["status"] != "undecided":
+            undecided.append("harness %s: declared cover point(s) missing: %s" % (name, ", ".join(sorted(wantc - havec))))
         # declared named obligations must all be present
         want = set(h.get("obligations", []))
         have = {c["name"] for c in nchecks}
@@ -314,6 +318,35 @@ def cmd_check(pid, tier, seed):
     return EXIT_OK
 
 
+def cmd_expect_update(pids):
+    """dev: record, per harness, the named obligations and cover points a passing run must show."""
+    from registry import INDEX
+    b = kanitrack.build()
+    if not b["ok"]:
+        print("build failed")
+        return 2
+    p = os.path.join(VERIF, "lib", "expected.json")
+    exp = json.load(open(p)) if os.path.exists(p) else {}
+    names = [n for n, h in sorted(INDEX.items()) if not pids or h["prop"] in pids or n in pids]
+    metas = [(n, kanitrack.find_harness(b["harnesses"], n)) for n in names]
+    missing = [n for n, m in metas if m is None]
+    if missing:
+        print("missing from build:", missing)
+    metas = [(n, m) for n, m in metas if m is not None]
+    tmo = int(os.environ.get("VERIF_HARNESS_TIMEOUT", "3600"))
+    res = kanitrack.run_many([m for _, m in metas], os.path.join(CACHE, "run", "expect-%d" % os.getpid()), tmo)
+    for (n, m), r in zip(metas, res):
+        ob = sorted({c["name"] for c in r["checks"] if c["cls"] != "cover" and re.match(r"^C\d\d\.", c["name"]) and c["verdict"] in ("discharged", "refuted")})
+        cv = sorted({c["name"] for c in r["checks"] if c["cls"] == "cover" and c["verdict"] == "satisfied"})
+        unre = sorted({c["name"] for c in r["checks"] if c["cls"] != "cover" and re.match(r"^C\d\d\.", c["name"]) and c["verdict"] == "unreachable"})
+        print("%-60s %-9s %6.1fs obligations=%d covers=%d%s%s" % (n, r["status"], r["seconds"], len(ob), len(cv),
+              (" UNREACHABLE:" + ",".join(unre)) if unre else "", (" " + r.get("reason", "")) if r["status"] == "undecided" else ""))
+        if r["status"] in ("ok", "failed"):
+            exp[n] = dict(obligations=ob, covers=cv, seconds=round(r["seconds"], 1), status=r["status"])
+    write_json(p, exp)
+    return 0
+
+
 def cmd_replay(path):
     rep = json.load(open(path))
     if rep.get("back_end") != "kani/cbmc" or "inputs" not in rep:
@@ -443,6 +476,8 @@ def main(argv):
     if c == "kani-run":
         a = [x for x in argv[2:] if x != "--trace"]
         return cmd_kani_run(a, trace="--trace" in argv)
+    if c == "expect-update":
+        return cmd_expect_update(argv[2:])
     if c == "replay":
         return cmd_replay(argv[2])
     if c == "selfcheck-driver":
